@@ -395,8 +395,10 @@ func c13EmptyBeforePassLimit(c *Ctx) {
 		}
 		return false
 	}
+	passLimitFns := map[*ssa.Function]bool{}
 	returnsOf(passLimit, func(fn *ssa.Function, r *ssa.Return) {
 		n++
+		passLimitFns[fn] = true
 		nonEmpty := knownNonEmpty(r)
 		if !nonEmpty {
 			// ... or the pass counter it was compared with only ever advances where something was decoded
@@ -444,7 +446,19 @@ func c13EmptyBeforePassLimit(c *Ctx) {
 		c.Check(nonEmpty, "O13.8", fk(fn)+":no-ammo-test-before-pass-limit", r.Pos(),
 			"ErrPassLimit is returned without knowing that an entry was decoded: with passes: 1 an ammo file without entries ends the run cleanly instead of with ErrNoAmmo (the other decoders test emptiness first)")
 	})
-	c.Floor("O13.8", "returns of ErrPassLimit in the decoders", n, 4)
+	c.Floor("O13.8", "returns of ErrPassLimit in the decoders", n, 1)
+	// non-vacuity per decoder, not per return statement (helpers may share one return): the Scan tree of every Decoder
+	// implementation contains a checked `return ErrPassLimit`
+	for _, nt := range decoderImpls(c, "O13.8") {
+		scan := P.MethodFn(nt, "Scan")
+		covered := false
+		for _, g := range FindFuncs(scan, 3, func(g *ssa.Function) bool { return PkgOf(g) == PkgOf(scan) }) {
+			if passLimitFns[g] {
+				covered = true
+			}
+		}
+		c.Check(covered, "O13.8", fk(scan)+":pass-limit-return-is-among-the-checked", scan.Pos(), "the Scan tree of this decoder contains a `return ErrPassLimit` that the emptiness rule looked at")
+	}
 }
 
 func flipCmp(op token.Token) token.Token {
